@@ -26,15 +26,15 @@ use crate::util::{self, IsaSel};
 
 fn prim_tasks(thorough: bool) -> Vec<Task> {
     let mut t = vec![Task::Small, Task::Bytes];
-    let partners = if thorough { 1024 } else { 64 };
-    let step = if thorough { 1024 } else { 4096 };
+    let partners = if thorough { 8192 } else { 256 };
+    let step = if thorough { 256 } else { 2048 };
     let mut a = 0u32;
     while a < 65536 {
         t.push(Task::Words { a_lo: a, a_hi: a + step, partners });
         a += step;
     }
     // f32 unary ops + f32->f16 over a bit-pattern lattice
-    let (stride, chunks) = if thorough { (256u32, 64u32) } else { (4096u32, 8u32) };
+    let (stride, chunks) = if thorough { (32u32, 256u32) } else { (1024u32, 16u32) };
     let total = (1u64 << 32) / stride as u64;
     let per = (total / chunks as u64) as u32;
     for c in 0..chunks {
@@ -150,6 +150,9 @@ fn run_tails(ctx: &Ctx, cases: &[Json], samples: &Samples) -> TailStats {
                                 );
                                 lens += len.saturating_sub(start) + 1;
                                 case["start_len"] = json!(len + 1);
+                                // the worker has exited: start a fresh one
+                                stats.lock().unwrap().restarts += 1;
+                                w = Worker::new("c18-tails", Duration::from_secs(60), 0);
                             }
                             Outcome::Answer(ans) => {
                                 lens += ans["done"].as_u64().unwrap_or(0);
@@ -410,9 +413,20 @@ fn report_prims(ctx: &Ctx, recs: &[Rec]) {
         let first = vals[0].1;
         if let Some(other) = vals.iter().find(|(_, v)| !(v.0 == first.0 || (v.1 && first.1))) {
             let listing: Vec<String> = vals.iter().map(|(isa, v)| format!("{isa} = {}", v.2)).collect();
+            // partition of the ISAs by result, so that a new split is a new signature
+            let mut groups: Vec<(u64, bool, Vec<&str>)> = Vec::new();
+            for (isa, v) in &vals {
+                match groups.iter_mut().find(|g| g.0 == v.0 || (g.1 && v.1)) {
+                    Some(g) => g.2.push(isa),
+                    None => groups.push((v.0, v.1, vec![isa])),
+                }
+            }
+            let mut parts: Vec<String> = groups.iter().map(|g| { let mut m = g.2.clone(); m.sort(); m.join("=") }).collect();
+            parts.sort();
+            let sig = format!("{} [{}]", agreement_family(k), parts.join(" vs "));
             ctx.violation(
-                agreement_family(k),
-                json!({"kind": "agreement", "call": k, "signature": agreement_family(k)}),
+                sig.clone(),
+                json!({"kind": "agreement", "call": k, "signature": sig}),
                 format!("{k}: {} (first disagreement with {})", listing.join(", "), other.0),
             );
         }
@@ -493,7 +507,25 @@ pub fn run(ctx: Ctx) -> ! {
             "example_counts": r.per_op.iter().filter(|(k, _)| k.ends_with("::mul") || k.ends_with("::narrow_saturate") || k.ends_with("::load_pad")).collect::<BTreeMap<_, _>>()}));
     }
 
-    // Part B
+    // Part B: first prove that the observers work in this environment
+    {
+        let probe = Samples::new(1);
+        let mut w = Worker::new("c18-tails", Duration::from_secs(30), 0);
+        for placement in ["end-guard", "start-guard"] {
+            let c = json!({"kind": "tail", "isa": isas[0].name, "routine": "selftest::stray_read", "placement": placement, "start_len": 5, "max_len": 5});
+            match w.run(&c) {
+                Outcome::Answer(Json::String(l)) if l.starts_with("GUARD-PAGE-FAULT") => {}
+                other => ctx.machinery(&format!("guard-page self-test failed ({placement}): a stray read was not reported: {other:?}")),
+            }
+            w = Worker::new("c18-tails", Duration::from_secs(30), 0);
+            let c = json!({"kind": "tail", "isa": isas[0].name, "routine": "selftest::stray_write", "placement": placement, "start_len": 5, "max_len": 5});
+            match w.run(&c) {
+                Outcome::Answer(a) if a["n_fail"].as_u64() == Some(1) => {}
+                other => ctx.machinery(&format!("canary self-test failed ({placement}): a stray write was not reported: {other:?}")),
+            }
+        }
+        drop(probe);
+    }
     let cases = tail_case_list(&isas, thorough);
     let st = run_tails(&ctx, &cases, &samples);
     eprintln!("C18 tails cases={} lengths={} faults={} t={:.1}s", st.cases, st.lens_run, st.faults, ctx.elapsed_s());
@@ -513,17 +545,17 @@ pub fn run(ctx: Ctx) -> ! {
         "axes": {
             "isas": isas.iter().map(|i| i.name).collect::<Vec<_>>(),
             "type_method_pairs": ops_covered.len(),
-            "partners_16bit": if thorough { 1024 } else { 64 },
+            "partners_16bit": if thorough { 8192 } else { 256 },
             "f32_alphabet": f32_alphabet().len(),
             "i32_alphabet": crate::c18_common::i32_alphabet().len(),
-            "f32_unary_lattice_stride": if thorough { 256 } else { 4096 },
+            "f32_unary_lattice_stride": if thorough { 32 } else { 1024 },
             "tail_routines": c18_tails::routines().len(),
             "tail_cases(isa x routine x placement)": cases.len(),
             "tail_lengths_run": st.lens_run,
             "guard_page_faults": st.faults,
             "worker_restarts": st.restarts,
         },
-        "design_box_note": "DESIGN asks for all 2^32 16-bit pairs in the thorough tier; that does not fit 15 min with a scalar oracle, so the last axis (partners) is shrunk to 1024 (quick: 64)",
+        "design_box_note": "DESIGN asks for all 2^32 16-bit pairs in the thorough tier; that does not fit 15 min with a scalar oracle, so the last axis (partners) is shrunk to 8192 (quick: 256)",
         "primitive_lanes_compared": prim_lanes,
         "methods": ops_covered,
         "samples": samples.take(),
